@@ -101,6 +101,11 @@ CLAIMED = {
          "Generated-input search: 600k histories (about 2.6M statements) quick / 15M thorough with single/multi-row INSERT, UPDATE and DELETE matching zero, one or many rows; exactly one audit row per (matching trigger x affected row whose WHEN holds) with that row's images, one per matching statement trigger (also for zero rows), and a failing body must fail the statement with the table unchanged.",
          "Triggers are created through the AST (TriggerAction::RawSql) as the repository's tests do; firing order is not compared; UPDATE OF on an assigned-but-unchanged column may or may not fire.",
          "DESIGN.md §6 C34"),
+ "C30": ("exploration",
+         "differential property-based testing (Hypothesis, stateful sequences on one cursor) of DB-API parameter binding: every parameterised execute is compared with a reference connection that runs the same statement with the harness's own correct literal substitution, plus a read-back rule on bound values",
+         "Generated-input search: 4k examples quick / 75k thorough of 2-6 execute(sql, params) calls re-using 1-3 SQL texts with 0-4 placeholders, `?` inside literals / quoted identifiers / comments, and int/float/str/bool/None values with edge cases; rows, rowcount and every table are compared after each step.",
+         "Values without an SQL literal (NaN, inf, ints beyond 64 bits) must raise or round-trip; steps that raise on both sides do not count as non-trivial.",
+         "DESIGN.md §6 C30"),
  "C15": ("exploration",
          "invariant testing of index structures: after every statement of a generated history the PK hash index, UNIQUE hash indexes and every user index map are compared with a rebuild from scratch on a clone",
          "Generated-input search: 250k histories quick / 6M thorough with position-shifting deletes, updates of indexed/key columns, DELETE-all/TRUNCATE, INSERT..SELECT; uses only public APIs (primary_key_index, unique_indexes, get_index_data, rebuild_indexes).",
@@ -133,6 +138,21 @@ try:
 except FileNotFoundError:
     pass
 
+ENGINES = {
+    "chk_srv": {"path": "harness/chk_srv", "props": ["C27", "C28", "C29"], "text": "Rust binary on the same vcore runner; compiles the server's protocol/auth source files via #[path]"},
+    "chk_store": {"path": "harness/chk_store", "props": ["C17", "C22"], "text": "Rust binary on the same vcore runner; B+ tree and temporal-type checks"},
+    "chk_cli": {"path": "harness/chk_cli", "props": ["C31"], "text": "Rust binary on the same vcore runner; compiles the CLI's commands/data_io/executor source files via #[path]"},
+    "chk_persist": {"path": "harness/chk_persist", "props": ["C18", "C19", "C20"], "text": "Rust binary on the same vcore runner; save/load round-trips and damaged-file loading in isolated child processes with a counting allocator"},
+    "chk_total": {"path": "harness/chk_total", "props": ["C23", "C24"], "text": "Rust binary on the same vcore runner (child-process isolation) plus cargo-fuzz/libFuzzer targets under /verif/fuzz for the thorough tier"},
+    "chk_sec": {"path": "harness/chk_sec", "props": ["C25", "C26"], "text": "Rust binary on the same vcore runner; privilege model and query-result-cache client"},
+    "py_c30": {"path": "py/c30.py", "props": ["C30"], "text": "Python: Hypothesis 6.168 (seeded, database=None) against the pyo3 extension built from /repo; reference connection with the harness's own literal substitution"},
+}
+def engine_of(pid):
+    for n, e in ENGINES.items():
+        if pid in e["props"]:
+            return n
+    return "vcheck"
+
 checks = []
 na = []
 for p in props:
@@ -145,7 +165,7 @@ for p in props:
             "thorough_cmd": f"./check {pid} thorough",
             "evidence_file": f"/verif/evidence/{pid}.json",
             "replay_cmd_template": f"./check {pid} --replay {{path}}",
-            "engine": "chk_srv" if pid in ("C27","C28","C29") else ("chk_cli" if pid == "C31" else ("chk_store" if pid in ("C17","C22") else "vcheck")),
+            "engine": engine_of(pid),
             "level_claimed": {"category": cat, "text": text, "design_ref": ref},
             "level_note": note,
             "technique": tech,
@@ -164,16 +184,8 @@ manifest = {
         "source_commits": hooks,
         "add_only": True,
     },
-    "engines": [
-        {"name": "chk_srv", "path": "harness/chk_srv", "serves_properties": ["C27","C28","C29"],
-         "kind_free_text": "Rust binary on the same vcore runner; compiles the server's protocol/auth source files via #[path]"},
-        {"name": "chk_store", "path": "harness/chk_store", "serves_properties": ["C17","C22"],
-         "kind_free_text": "Rust binary on the same vcore runner; B+ tree and temporal-type checks"},
-        {"name": "chk_cli", "path": "harness/chk_cli", "serves_properties": ["C31"],
-         "kind_free_text": "Rust binary on the same vcore runner; compiles the CLI's commands/data_io/executor source files via #[path]"},
-        {"name": "vcheck", "path": "harness/", "serves_properties": sorted(k for k in CLAIMED.keys() if k not in ("C27","C28","C29","C31","C17","C22")),
-         "kind_free_text": "Rust binary: proptest 1.11 TestRunner driving a choice tape -> typed case IR -> explicit oracle; shrinks to a JSON replay file; child-process isolation for totality properties"},
-    ],
+    "engines": [dict(name=n, path=e["path"], serves_properties=sorted(x for x in e["props"] if x in CLAIMED), kind_free_text=e["text"]) for n, e in ENGINES.items() if any(x in CLAIMED for x in e["props"])]
+             + [dict(name="vcheck", path="harness/", serves_properties=sorted(k for k in CLAIMED if engine_of(k) == "vcheck"), kind_free_text="Rust binary: proptest 1.11 TestRunner driving a choice tape -> typed case IR -> explicit oracle; shrinks to a JSON replay file; child-process isolation for totality properties")],
     "checks": checks,
     "not_applicable": na,
     "notes": "All commands run with cwd=/verif. VERIF_SEED selects the PRNG stream (default 1). Exit 0 held / 1 VIOLATION / 2 inconclusive. known_findings.json lists recorded and fixed defects.",
